@@ -841,6 +841,10 @@ def c17(run, op, ctx, after):
         return
     r = ctx.get("resp")
     if r is None or r.status != 207:
+        if r is not None and r.status >= 500 and ctx.get("read_fault"):
+            # an injected read error may fail the report; a 207 still has to be right
+            run.nontrivial["multiget_failed_under_read_fault"] = run.nontrivial.get("multiget_failed_under_read_fault", 0) + 1
+            return
         if r is not None and r.status >= 500:
             run.v("C17", "C17.report-failed", "multiget on %s with %s -> %s" % (ctx["rel"], ctx.get("href_texts"), r.status), status=r.status)
         return
